@@ -338,19 +338,22 @@ Definition event_okb (strict : bool) (rec : list (nat * N * N)) (st : state) (ev
   match e_kind ev with
   | KEdit => true
   | k =>
-      forallb (fun p =>
-        let w := fst p in
-        let d := w_disk (snd p) in
-        let changed := match lookupN w (e_ws_post ev) with
-                       | Some ws' => negb (N.eqb (w_disk ws') d)
-                       | None => true
-                       end in
-        let snapshotted := N.eqb w (e_ws ev) && N.eqb (e_status ev) 0
-                           && negb (absent_from_view st w)
-                           && match k with KNormal | KWorkspaceAdd _ | KUpdateStale => true | _ => false end in
-        negb (changed || snapshotted)
-        || recorded rec (length (s_ops st) + length (e_ops ev)) w d
-        || (negb strict && N.eqb w (e_ws ev) && absent_from_view st w)) (s_ws st)
+      forallb (fun w =>
+        match lookupN w (s_ws st) with
+        | None => true
+        | Some ws =>
+          let d := w_disk ws in
+          let changed := match lookupN w (e_ws_post ev) with
+                         | Some ws' => negb (N.eqb (w_disk ws') d)
+                         | None => true
+                         end in
+          let snapshotted := N.eqb w (e_ws ev) && N.eqb (e_status ev) 0
+                             && negb (absent_from_view st w)
+                             && match k with KNormal | KWorkspaceAdd _ | KUpdateStale => true | _ => false end in
+          negb (changed || snapshotted)
+          || recorded rec (length (s_ops st) + length (e_ops ev)) w d
+          || (negb strict && N.eqb w (e_ws ev) && absent_from_view st w)
+        end) (map fst (s_ws st))
   end.
 
 Fixpoint run_okb (strict : bool) (rec : list (nat * N * N)) (st : state) (evs : list event) : bool :=
@@ -399,4 +402,5 @@ Definition check_case (c : case) : N :=
     | None => false
     end in
   let p := okb c in
-  verdict corr p (known_class c) (if p then first_reject (c_init c) (c_events c) 0 else 100).
+  (* a case counts as inside the known class only if the model accepts the whole trace *)
+  verdict corr p (known_class c && corr) (if p then first_reject (c_init c) (c_events c) 0 else 100).
